@@ -1,4 +1,5 @@
 """C14 — loading a well-formed SNA / SZX / SCR file yields exactly the described state."""
+import re
 from . import corecommon as cc
 from . import c04
 from . import loaders as ld
@@ -41,6 +42,10 @@ def run(chk):
         szx(chk, prog, ln, m)
         scr(chk, prog, ln, m)
     ay_pairing(chk, prog)
+    # the loaders hand the loaded RAM to the display through this routine: it must feed every screen page
+    from . import c08
+    chk.rule("T-PAIR/refresh", "refresh_memory_dependent_devices re-reads every screen page of the machine (shared with C08)")
+    c08.refresh_covers_banks(chk, prog, cc.Names(prog))
     return chk.finish(EXPL)
 
 
@@ -115,6 +120,7 @@ def szx(chk, prog, ln, m):
             return EffectResult(Agg(("adt", "core::result::Result"), 0, [FILESIZE]), havoc=False)
         return None
     w = ld.make_loader_walker(prog, ln, opaque=opaque, extra_hook=extra, loop_bound=1, max_paths=4000)
+    w.trace_calls = True     # the dispatched chunk parser is read off the call, not off the string comparisons
     st = ld.emulator_state(w, prog, ln, m, paging_enabled=tm.sym("PAGING_ENABLED", 1),
                            cpu_overrides={"halted": tm.sym("WAS_HALTED", 1), "skip_interrupt": tm.sym("WAS_SKIP", 1)})
     init_emu = st.store[ld.EMU]
@@ -130,12 +136,11 @@ def szx(chk, prog, ln, m):
         if r.outcome not in ("return", "cut"):
             continue
         chunk = None
-        for c in r.pc:
-            if c[0] in ("eq", "ne") and isinstance(c[1], T) and c[1].op == "sym" and c[1].args[0].startswith("streq(") and pc_true(c):
-                nm = c[1].args[0]
-                lit = nm[nm.rindex(",") + 1:-1].strip("'\"")
-                if lit != "ZXST":
-                    chunk = lit
+        for e in r.trace:
+            if e.path.startswith("enter:"):
+                mm = re.search(r"::process_([a-z0-9]+)_block$", e.path)
+                if mm:
+                    chunk = mm.group(1).upper()
         muts = mutations(prog, ln, r, init_emu)
         if muts:
             # model guard
